@@ -240,4 +240,254 @@ def agg_select_signature : List String := ["functions", "data", "name"]
 /-- the calls of dataiter/aggregate.py: select in the order Python makes them along the source text -/
 def agg_select_call_order : List String := ["use_numba"]
 
+/-- dataiter/aggregate.py: all (sha256 of the function source: db2bc152d69a30fa) -/
+def agg_all (truth : Term → Bool) : Out :=
+  if truth (Term.app "isinstance" [(Term.sym "x"), (Term.sym "str")]) then
+    let aggregate' : Term := (Term.app "local-def" [(Term.app "def" [(Term.sym "aggregate"), (Term.app "params" [(Term.sym "data")]), (Term.app "block" [(Term.app "assign" [(Term.sym "f"), (Term.app "tuple" [(Term.sym "generic"), (Term.sym "generic_numba")])]), (Term.app "assign" [(Term.sym "f"), (Term.app "call" [(Term.app "select" [(Term.sym "f"), (Term.sym "data"), (Term.sym "x")]), (Term.sym "np.all")])]), (Term.app "store" [(Term.sym "aggregate.default"), (Term.sym "True")]), (Term.app "return" [(Term.app "call" [(Term.sym "f"), (Term.app ".as_boolean" [(Term.app "getitem" [(Term.sym "data"), (Term.sym "x")])]), (Term.app "._group_" [(Term.sym "data")]), (Term.app "=drop_na" [(Term.sym "False")]), (Term.app "=default" [(Term.sym "True")]), (Term.app "=nrequired" [(Term.int (0 : Int))])])])])])]);
+    let attr0_2' : Term := (Term.sym "True");
+    let eff0 : Term := (Term.app "setattr" [aggregate', (Term.sym "group_aware"), attr0_2']);
+    Out.ret [eff0] aggregate'
+  else
+    let x' : Term := (Term.app ".as_boolean" [(Term.sym "x")]);
+    Out.ret [] (Term.app ".item" [(Term.app "np.all" [x'])])
+
+/-- the decorators of dataiter/aggregate.py: all, outermost first -/
+def agg_all_decorators : List String := ["composite"]
+
+/-- the signature of dataiter/aggregate.py: all: parameters in order, with the source text of their defaults -/
+def agg_all_signature : List String := ["x"]
+
+/-- the calls of dataiter/aggregate.py: all in the order Python makes them along the source text -/
+def agg_all_call_order : List String := ["isinstance", "x.as_boolean", "np.all", "np.all(x).item"]
+
+/-- dataiter/aggregate.py: any (sha256 of the function source: 5e02645b2c199a2f) -/
+def agg_any (truth : Term → Bool) : Out :=
+  if truth (Term.app "isinstance" [(Term.sym "x"), (Term.sym "str")]) then
+    let aggregate' : Term := (Term.app "local-def" [(Term.app "def" [(Term.sym "aggregate"), (Term.app "params" [(Term.sym "data")]), (Term.app "block" [(Term.app "assign" [(Term.sym "f"), (Term.app "tuple" [(Term.sym "generic"), (Term.sym "generic_numba")])]), (Term.app "assign" [(Term.sym "f"), (Term.app "call" [(Term.app "select" [(Term.sym "f"), (Term.sym "data"), (Term.sym "x")]), (Term.sym "np.any")])]), (Term.app "store" [(Term.sym "aggregate.default"), (Term.sym "False")]), (Term.app "return" [(Term.app "call" [(Term.sym "f"), (Term.app ".as_boolean" [(Term.app "getitem" [(Term.sym "data"), (Term.sym "x")])]), (Term.app "._group_" [(Term.sym "data")]), (Term.app "=drop_na" [(Term.sym "False")]), (Term.app "=default" [(Term.sym "False")]), (Term.app "=nrequired" [(Term.int (0 : Int))])])])])])]);
+    let attr0_2' : Term := (Term.sym "True");
+    let eff0 : Term := (Term.app "setattr" [aggregate', (Term.sym "group_aware"), attr0_2']);
+    Out.ret [eff0] aggregate'
+  else
+    let x' : Term := (Term.app ".as_boolean" [(Term.sym "x")]);
+    Out.ret [] (Term.app ".item" [(Term.app "np.any" [x'])])
+
+/-- the decorators of dataiter/aggregate.py: any, outermost first -/
+def agg_any_decorators : List String := ["composite"]
+
+/-- the signature of dataiter/aggregate.py: any: parameters in order, with the source text of their defaults -/
+def agg_any_signature : List String := ["x"]
+
+/-- the calls of dataiter/aggregate.py: any in the order Python makes them along the source text -/
+def agg_any_call_order : List String := ["isinstance", "x.as_boolean", "np.any", "np.any(x).item"]
+
+/-- dataiter/aggregate.py: count (sha256 of the function source: 1e86de4a6d8125ed) -/
+def agg_count (truth : Term → Bool) : Out :=
+  if truth (Term.app "isinstance" [(Term.sym "x"), (Term.sym "str")]) then
+    let aggregate' : Term := (Term.app "local-def" [(Term.app "def" [(Term.sym "aggregate"), (Term.app "params" [(Term.sym "data")]), (Term.app "block" [(Term.app "assign" [(Term.sym "f"), (Term.app "tuple" [(Term.sym "generic"), (Term.sym "generic_numba")])]), (Term.app "assign" [(Term.sym "f"), (Term.app "call" [(Term.app "select" [(Term.sym "f"), (Term.sym "data"), (Term.app "Or" [(Term.sym "x"), (Term.sym "'_group_'")])]), (Term.sym "len")])]), (Term.app "store" [(Term.sym "aggregate.default"), (Term.int (0 : Int))]), (Term.app "return" [(Term.app "call" [(Term.sym "f"), (Term.app "getitem" [(Term.sym "data"), (Term.app "Or" [(Term.sym "x"), (Term.sym "'_group_'")])]), (Term.app "._group_" [(Term.sym "data")]), (Term.app "=drop_na" [(Term.app "And" [(Term.sym "drop_na"), (Term.sym "x"), (Term.app ".any" [(Term.app ".is_na" [(Term.app "getitem" [(Term.sym "data"), (Term.sym "x")])])])])]), (Term.app "=default" [(Term.int (0 : Int))]), (Term.app "=nrequired" [(Term.int (0 : Int))])])])])])]);
+    let attr0_2' : Term := (Term.sym "True");
+    let eff0 : Term := (Term.app "setattr" [aggregate', (Term.sym "group_aware"), attr0_2']);
+    Out.ret [eff0] aggregate'
+  else
+    let x' : Term := (Term.app "handle_na" [(Term.sym "x"), (Term.sym "drop_na")]);
+    Out.ret [] (Term.app "len" [x'])
+
+/-- the decorators of dataiter/aggregate.py: count, outermost first -/
+def agg_count_decorators : List String := []
+
+/-- the signature of dataiter/aggregate.py: count: parameters in order, with the source text of their defaults -/
+def agg_count_signature : List String := ["x=''", "*", "drop_na=False"]
+
+/-- the calls of dataiter/aggregate.py: count in the order Python makes them along the source text -/
+def agg_count_call_order : List String := ["isinstance", "handle_na", "len"]
+
+/-- dataiter/aggregate.py: count_unique (sha256 of the function source: 405235eeb40836b8) -/
+def agg_count_unique (truth : Term → Bool) : Out :=
+  if truth (Term.app "isinstance" [(Term.sym "x"), (Term.sym "str")]) then
+    let aggregate' : Term := (Term.app "local-def" [(Term.app "def" [(Term.sym "aggregate"), (Term.app "params" [(Term.sym "data")]), (Term.app "block" [(Term.app "assign" [(Term.sym "f"), (Term.app "tuple" [(Term.sym "count_unique_apply"), (Term.sym "count_unique_apply_numba")])]), (Term.app "assign" [(Term.sym "f"), (Term.app "select" [(Term.sym "f"), (Term.sym "data"), (Term.sym "x")])]), (Term.app "store" [(Term.sym "aggregate.default"), (Term.int (0 : Int))]), (Term.app "return" [(Term.app "call" [(Term.sym "f"), (Term.app "getitem" [(Term.sym "data"), (Term.sym "x")]), (Term.app "._group_" [(Term.sym "data")]), (Term.app "=drop_na" [(Term.app "And" [(Term.sym "drop_na"), (Term.app ".any" [(Term.app ".is_na" [(Term.app "getitem" [(Term.sym "data"), (Term.sym "x")])])])])])])])])])]);
+    let attr0_2' : Term := (Term.sym "True");
+    let eff0 : Term := (Term.app "setattr" [aggregate', (Term.sym "group_aware"), attr0_2']);
+    Out.ret [eff0] aggregate'
+  else
+    let x' : Term := (Term.app "handle_na" [(Term.sym "x"), (Term.sym "drop_na")]);
+    Out.ret [] (Term.app "len" [(Term.app "set()" [x'])])
+
+/-- the decorators of dataiter/aggregate.py: count_unique, outermost first -/
+def agg_count_unique_decorators : List String := ["composite"]
+
+/-- the signature of dataiter/aggregate.py: count_unique: parameters in order, with the source text of their defaults -/
+def agg_count_unique_signature : List String := ["x", "*", "drop_na=False"]
+
+/-- the calls of dataiter/aggregate.py: count_unique in the order Python makes them along the source text -/
+def agg_count_unique_call_order : List String := ["isinstance", "handle_na", "set", "len"]
+
+/-- dataiter/aggregate.py: first (sha256 of the function source: 691f41be518553c7) -/
+def agg_first (truth : Term → Bool) : Out :=
+  Out.ret [] (Term.app "nth" [(Term.sym "x"), (Term.int (0 : Int)), (Term.app "=drop_na" [(Term.sym "drop_na")])])
+
+/-- the decorators of dataiter/aggregate.py: first, outermost first -/
+def agg_first_decorators : List String := []
+
+/-- the signature of dataiter/aggregate.py: first: parameters in order, with the source text of their defaults -/
+def agg_first_signature : List String := ["x", "*", "drop_na=False"]
+
+/-- the calls of dataiter/aggregate.py: first in the order Python makes them along the source text -/
+def agg_first_call_order : List String := ["nth"]
+
+/-- dataiter/aggregate.py: last (sha256 of the function source: 0ea13b936f09f8a3) -/
+def agg_last (truth : Term → Bool) : Out :=
+  Out.ret [] (Term.app "nth" [(Term.sym "x"), (Term.int (-(1 : Int))), (Term.app "=drop_na" [(Term.sym "drop_na")])])
+
+/-- the decorators of dataiter/aggregate.py: last, outermost first -/
+def agg_last_decorators : List String := ["composite"]
+
+/-- the signature of dataiter/aggregate.py: last: parameters in order, with the source text of their defaults -/
+def agg_last_signature : List String := ["x", "*", "drop_na=False"]
+
+/-- the calls of dataiter/aggregate.py: last in the order Python makes them along the source text -/
+def agg_last_call_order : List String := ["nth"]
+
+/-- dataiter/aggregate.py: max (sha256 of the function source: 1f341a97ce7731bc) -/
+def agg_max (truth : Term → Bool) : Out :=
+  if truth (Term.app "isinstance" [(Term.sym "x"), (Term.sym "str")]) then
+    let aggregate' : Term := (Term.app "local-def" [(Term.app "def" [(Term.sym "aggregate"), (Term.app "params" [(Term.sym "data")]), (Term.app "block" [(Term.app "assign" [(Term.sym "f"), (Term.app "tuple" [(Term.sym "generic"), (Term.sym "generic_numba")])]), (Term.app "assign" [(Term.sym "f"), (Term.app "call" [(Term.app "select" [(Term.sym "f"), (Term.sym "data"), (Term.sym "x")]), (Term.sym "np.amax")])]), (Term.app "store" [(Term.sym "aggregate.default"), (Term.app ".na_value" [(Term.app "getitem" [(Term.sym "data"), (Term.sym "x")])])]), (Term.app "return" [(Term.app "call" [(Term.sym "f"), (Term.app "getitem" [(Term.sym "data"), (Term.sym "x")]), (Term.app "._group_" [(Term.sym "data")]), (Term.app "=drop_na" [(Term.app "And" [(Term.sym "drop_na"), (Term.app ".any" [(Term.app ".is_na" [(Term.app "getitem" [(Term.sym "data"), (Term.sym "x")])])])])]), (Term.app "=default" [(Term.sym "None")]), (Term.app "=nrequired" [(Term.int (1 : Int))])])])])])]);
+    let attr0_2' : Term := (Term.sym "True");
+    let eff0 : Term := (Term.app "setattr" [aggregate', (Term.sym "group_aware"), attr0_2']);
+    Out.ret [eff0] aggregate'
+  else
+    let x' : Term := (Term.app "handle_na" [(Term.sym "x"), (Term.sym "drop_na")]);
+    Out.ret [] (if truth (Term.app "GtE" [(Term.app "len" [x']), (Term.int (1 : Int))]) then (Term.app ".item" [(Term.app "np.amax" [x'])]) else (Term.app ".na_value" [x']))
+
+/-- the decorators of dataiter/aggregate.py: max, outermost first -/
+def agg_max_decorators : List String := ["composite"]
+
+/-- the signature of dataiter/aggregate.py: max: parameters in order, with the source text of their defaults -/
+def agg_max_signature : List String := ["x", "*", "drop_na=True"]
+
+/-- the calls of dataiter/aggregate.py: max in the order Python makes them along the source text -/
+def agg_max_call_order : List String := ["isinstance", "handle_na", "len", "np.amax", "np.amax(x).item"]
+
+/-- dataiter/aggregate.py: mean (sha256 of the function source: aa6c49e371521213) -/
+def agg_mean (truth : Term → Bool) : Out :=
+  if truth (Term.app "isinstance" [(Term.sym "x"), (Term.sym "str")]) then
+    let aggregate' : Term := (Term.app "local-def" [(Term.app "def" [(Term.sym "aggregate"), (Term.app "params" [(Term.sym "data")]), (Term.app "block" [(Term.app "assign" [(Term.sym "f"), (Term.app "tuple" [(Term.sym "generic"), (Term.sym "generic_numba")])]), (Term.app "assign" [(Term.sym "f"), (Term.app "call" [(Term.app "select" [(Term.sym "f"), (Term.sym "data"), (Term.sym "x")]), (Term.sym "np.mean")])]), (Term.app "store" [(Term.sym "aggregate.default"), (Term.sym "np.nan")]), (Term.app "return" [(Term.app "call" [(Term.sym "f"), (Term.app "getitem" [(Term.sym "data"), (Term.sym "x")]), (Term.app "._group_" [(Term.sym "data")]), (Term.app "=drop_na" [(Term.app "And" [(Term.sym "drop_na"), (Term.app ".any" [(Term.app ".is_na" [(Term.app "getitem" [(Term.sym "data"), (Term.sym "x")])])])])]), (Term.app "=default" [(Term.sym "np.nan")]), (Term.app "=nrequired" [(Term.int (1 : Int))])])])])])]);
+    let attr0_2' : Term := (Term.sym "True");
+    let eff0 : Term := (Term.app "setattr" [aggregate', (Term.sym "group_aware"), attr0_2']);
+    Out.ret [eff0] aggregate'
+  else
+    let x' : Term := (Term.app "handle_na" [(Term.sym "x"), (Term.sym "drop_na")]);
+    Out.ret [] (if truth (Term.app "GtE" [(Term.app "len" [x']), (Term.int (1 : Int))]) then (Term.app ".item" [(Term.app "np.mean" [x'])]) else (Term.sym "np.nan"))
+
+/-- the decorators of dataiter/aggregate.py: mean, outermost first -/
+def agg_mean_decorators : List String := ["composite"]
+
+/-- the signature of dataiter/aggregate.py: mean: parameters in order, with the source text of their defaults -/
+def agg_mean_signature : List String := ["x", "*", "drop_na=True"]
+
+/-- the calls of dataiter/aggregate.py: mean in the order Python makes them along the source text -/
+def agg_mean_call_order : List String := ["isinstance", "handle_na", "len", "np.mean", "np.mean(x).item"]
+
+/-- dataiter/aggregate.py: min (sha256 of the function source: a5a6b96a7a1c9f94) -/
+def agg_min (truth : Term → Bool) : Out :=
+  if truth (Term.app "isinstance" [(Term.sym "x"), (Term.sym "str")]) then
+    let aggregate' : Term := (Term.app "local-def" [(Term.app "def" [(Term.sym "aggregate"), (Term.app "params" [(Term.sym "data")]), (Term.app "block" [(Term.app "assign" [(Term.sym "f"), (Term.app "tuple" [(Term.sym "generic"), (Term.sym "generic_numba")])]), (Term.app "assign" [(Term.sym "f"), (Term.app "call" [(Term.app "select" [(Term.sym "f"), (Term.sym "data"), (Term.sym "x")]), (Term.sym "np.amin")])]), (Term.app "store" [(Term.sym "aggregate.default"), (Term.app ".na_value" [(Term.app "getitem" [(Term.sym "data"), (Term.sym "x")])])]), (Term.app "return" [(Term.app "call" [(Term.sym "f"), (Term.app "getitem" [(Term.sym "data"), (Term.sym "x")]), (Term.app "._group_" [(Term.sym "data")]), (Term.app "=drop_na" [(Term.app "And" [(Term.sym "drop_na"), (Term.app ".any" [(Term.app ".is_na" [(Term.app "getitem" [(Term.sym "data"), (Term.sym "x")])])])])]), (Term.app "=default" [(Term.sym "None")]), (Term.app "=nrequired" [(Term.int (1 : Int))])])])])])]);
+    let attr0_2' : Term := (Term.sym "True");
+    let eff0 : Term := (Term.app "setattr" [aggregate', (Term.sym "group_aware"), attr0_2']);
+    Out.ret [eff0] aggregate'
+  else
+    let x' : Term := (Term.app "handle_na" [(Term.sym "x"), (Term.sym "drop_na")]);
+    Out.ret [] (if truth (Term.app "GtE" [(Term.app "len" [x']), (Term.int (1 : Int))]) then (Term.app ".item" [(Term.app "np.amin" [x'])]) else (Term.app ".na_value" [x']))
+
+/-- the decorators of dataiter/aggregate.py: min, outermost first -/
+def agg_min_decorators : List String := ["composite"]
+
+/-- the signature of dataiter/aggregate.py: min: parameters in order, with the source text of their defaults -/
+def agg_min_signature : List String := ["x", "*", "drop_na=True"]
+
+/-- the calls of dataiter/aggregate.py: min in the order Python makes them along the source text -/
+def agg_min_call_order : List String := ["isinstance", "handle_na", "len", "np.amin", "np.amin(x).item"]
+
+/-- dataiter/aggregate.py: mode (sha256 of the function source: c76d8549b37e14f1) -/
+def agg_mode (truth : Term → Bool) : Out :=
+  if truth (Term.app "isinstance" [(Term.sym "x"), (Term.sym "str")]) then
+    let aggregate' : Term := (Term.app "local-def" [(Term.app "def" [(Term.sym "aggregate"), (Term.app "params" [(Term.sym "data")]), (Term.app "block" [(Term.app "assign" [(Term.sym "f"), (Term.app "tuple" [(Term.sym "mode_apply"), (Term.sym "mode_apply_numba")])]), (Term.app "assign" [(Term.sym "f"), (Term.app "select" [(Term.sym "f"), (Term.sym "data"), (Term.sym "x")])]), (Term.app "store" [(Term.sym "aggregate.default"), (Term.app ".na_value" [(Term.app "getitem" [(Term.sym "data"), (Term.sym "x")])])]), (Term.app "return" [(Term.app "call" [(Term.sym "f"), (Term.app "getitem" [(Term.sym "data"), (Term.sym "x")]), (Term.app "._group_" [(Term.sym "data")]), (Term.app "=drop_na" [(Term.app "And" [(Term.sym "drop_na"), (Term.app ".any" [(Term.app ".is_na" [(Term.app "getitem" [(Term.sym "data"), (Term.sym "x")])])])])])])])])])]);
+    let attr0_2' : Term := (Term.sym "True");
+    let eff0 : Term := (Term.app "setattr" [aggregate', (Term.sym "group_aware"), attr0_2']);
+    Out.ret [eff0] aggregate'
+  else
+    let x' : Term := (Term.app "handle_na" [(Term.sym "x"), (Term.sym "drop_na")]);
+    Out.ret [] (if truth (Term.app "GtE" [(Term.app "len" [x']), (Term.int (1 : Int))]) then (Term.app "mode1" [x']) else (Term.app ".na_value" [x']))
+
+/-- the decorators of dataiter/aggregate.py: mode, outermost first -/
+def agg_mode_decorators : List String := ["composite"]
+
+/-- the signature of dataiter/aggregate.py: mode: parameters in order, with the source text of their defaults -/
+def agg_mode_signature : List String := ["x", "*", "drop_na=True"]
+
+/-- the calls of dataiter/aggregate.py: mode in the order Python makes them along the source text -/
+def agg_mode_call_order : List String := ["isinstance", "handle_na", "len", "mode1"]
+
+/-- dataiter/aggregate.py: quantile (sha256 of the function source: 4aa649552cdbf8ad) -/
+def agg_quantile (truth : Term → Bool) : Out :=
+  if truth (Term.app "isinstance" [(Term.sym "x"), (Term.sym "str")]) then
+    let aggregate' : Term := (Term.app "local-def" [(Term.app "def" [(Term.sym "aggregate"), (Term.app "params" [(Term.sym "data")]), (Term.app "block" [(Term.app "assign" [(Term.sym "f"), (Term.app "tuple" [(Term.sym "quantile_apply"), (Term.sym "quantile_apply_numba")])]), (Term.app "assign" [(Term.sym "f"), (Term.app "select" [(Term.sym "f"), (Term.sym "data"), (Term.sym "x")])]), (Term.app "store" [(Term.sym "aggregate.default"), (Term.sym "np.nan")]), (Term.app "return" [(Term.app "call" [(Term.sym "f"), (Term.app ".as_float" [(Term.app "getitem" [(Term.sym "data"), (Term.sym "x")])]), (Term.app "._group_" [(Term.sym "data")]), (Term.sym "q"), (Term.app "=drop_na" [(Term.app "And" [(Term.sym "drop_na"), (Term.app ".any" [(Term.app ".is_na" [(Term.app "getitem" [(Term.sym "data"), (Term.sym "x")])])])])])])])])])]);
+    let attr0_2' : Term := (Term.sym "True");
+    let eff0 : Term := (Term.app "setattr" [aggregate', (Term.sym "group_aware"), attr0_2']);
+    Out.ret [eff0] aggregate'
+  else
+    let x' : Term := (Term.app "handle_na" [(Term.sym "x"), (Term.sym "drop_na")]);
+    Out.ret [] (if truth (Term.app "GtE" [(Term.app "len" [x']), (Term.int (1 : Int))]) then (Term.app ".item" [(Term.app "np.quantile" [(Term.app ".as_float" [x']), (Term.sym "q")])]) else (Term.sym "np.nan"))
+
+/-- the decorators of dataiter/aggregate.py: quantile, outermost first -/
+def agg_quantile_decorators : List String := ["composite"]
+
+/-- the signature of dataiter/aggregate.py: quantile: parameters in order, with the source text of their defaults -/
+def agg_quantile_signature : List String := ["x", "q", "*", "drop_na=True"]
+
+/-- the calls of dataiter/aggregate.py: quantile in the order Python makes them along the source text -/
+def agg_quantile_call_order : List String := ["isinstance", "handle_na", "len", "x.as_float", "np.quantile", "np.quantile(x.as_float(), q).item"]
+
+/-- dataiter/aggregate.py: composite (sha256 of the function source: a1949f100a202485) -/
+def agg_composite (truth : Term → Bool) : Out :=
+  let wrapper' : Term := (Term.app "local-def" [(Term.app "def" [(Term.app "decorator" [(Term.app "functools.wraps" [(Term.sym "function")])]), (Term.sym "wrapper"), (Term.app "params" [(Term.sym "x"), (Term.sym "*args"), (Term.sym "**kwargs")]), (Term.app "block" [(Term.app "if" [(Term.app "not" [(Term.app "isinstance" [(Term.sym "x"), (Term.app "tuple" [(Term.sym "Vector"), (Term.sym "str")])])]), (Term.app "block" [(Term.app "raise" [(Term.sym "TypeError")])]), (Term.app "block" [])]), (Term.app "return" [(Term.app "function" [(Term.sym "x"), (Term.app "*" [(Term.sym "args")]), (Term.app "=**" [(Term.sym "kwargs")])])])])])]);
+  Out.ret [] wrapper'
+
+/-- the decorators of dataiter/aggregate.py: composite, outermost first -/
+def agg_composite_decorators : List String := []
+
+/-- the signature of dataiter/aggregate.py: composite: parameters in order, with the source text of their defaults -/
+def agg_composite_signature : List String := ["function"]
+
+/-- the calls of dataiter/aggregate.py: composite in the order Python makes them along the source text -/
+def agg_composite_call_order : List String := []
+
+/-- dataiter/aggregate.py: composite.wrapper (sha256 of the function source: ff893fe3423242cb) -/
+def agg_composite_wrapper (truth : Term → Bool) : Out :=
+  if (!truth (Term.app "isinstance" [(Term.sym "x"), (Term.app "tuple" [(Term.sym "Vector"), (Term.sym "str")])])) then
+    Out.raise [] "TypeError"
+  else
+    Out.ret [] (Term.app "function" [(Term.sym "x"), (Term.app "*" [(Term.sym "args")]), (Term.app "=**" [(Term.sym "kwargs")])])
+
+/-- the decorators of dataiter/aggregate.py: composite.wrapper, outermost first -/
+def agg_composite_wrapper_decorators : List String := ["functools.wraps(function)"]
+
+/-- the signature of dataiter/aggregate.py: composite.wrapper: parameters in order, with the source text of their defaults -/
+def agg_composite_wrapper_signature : List String := ["x", "*args", "**kwargs"]
+
+/-- the calls of dataiter/aggregate.py: composite.wrapper in the order Python makes them along the source text -/
+def agg_composite_wrapper_call_order : List String := ["isinstance", "TypeError", "function"]
+
+/-- dataiter/aggregate.py: generic.aggregate (sha256 of the function source: 34f0b2f8d54ef6dc) -/
+def agg_generic_aggregate (truth : Term → Bool) : Out :=
+  let eff0 : Term := (Term.app "for" [(Term.sym "xg"), (Term.app "yield_groups" [(Term.sym "x"), (Term.sym "group"), (Term.sym "drop_na")]), (Term.app "block" [(Term.app "yield" [(Term.app "ifexp" [(Term.app "GtE" [(Term.app "len" [(Term.sym "xg")]), (Term.sym "nrequired")]), (Term.app "function" [(Term.sym "xg"), (Term.app "=**" [(Term.sym "kwargs")])]), (Term.sym "default")])])])]);
+  Out.fall [eff0]
+
+/-- the decorators of dataiter/aggregate.py: generic.aggregate, outermost first -/
+def agg_generic_aggregate_decorators : List String := ["deco.listify"]
+
+/-- the signature of dataiter/aggregate.py: generic.aggregate: parameters in order, with the source text of their defaults -/
+def agg_generic_aggregate_signature : List String := ["x", "group", "drop_na", "default", "nrequired"]
+
+/-- the calls of dataiter/aggregate.py: generic.aggregate in the order Python makes them along the source text -/
+def agg_generic_aggregate_call_order : List String := ["yield_groups", "len", "function"]
+
 end DI.Gen
